@@ -194,3 +194,74 @@ def c10(tier):
                "truth tables compared; every %dth program also through a real server; non-trivial: at least one binary operator" % (depth, "of them" if nsample == 0 else "a seeded sample", eng_every))
     ck.assumptions = ["the spellings `related:` and `traverse` of the examples and snapshots are used where the EBNF text says `related =` and `transitive`"]
     ck.finish()
+
+
+def c11(tier):
+    ck = Check("C11", tier)
+    binary = build_harness()
+    # the repaired design (computed relation looked up where the engine evaluates it) satisfies the property on the model
+    cfg = write_cfg(["AsIsThroughSubjectSet = FALSE"], invariants=["Sound"])
+    r0 = tlc("OplTypes", "t0.cfg", files={"t0.cfg": cfg}, want_lines=False)
+    ck.add_tlc(r0)
+    if r0.violation:
+        ck.violation("OplTypes.tla: the type rules that follow the engine's lookups are not sound: " + r0.violation, {"tlc": r0.raw_tail[-2000:]})
+    # the type checker as written: oracle lines for the replay
+    cfg = write_cfg(["AsIsThroughSubjectSet = TRUE"])
+    r = tlc("OplTypes", "t1.cfg", files={"t1.cfg": cfg})
+    ck.add_tlc(r)
+    progs = r.lines
+    if tier == "quick":
+        import random
+        rnd = random.Random(seed())
+        must = [p for p in progs if p["accepted"] and not p["runtime_ok"]]     # the recorded finding's programs are always replayed
+        keep = [p for p in progs if p["prog"]["mut"] != "none" and p not in must]
+        rest = [p for p in progs if p not in keep and p not in must]
+        progs = must + rnd.sample(keep, min(len(keep), 250)) + rnd.sample(rest, min(len(rest), 140))
+    inp = {"typeprogs": [{"src": p["src"], "tuples": p["tuples"]} for p in progs], "progs": [], "lex": [], "texts": [], "raw": []}
+    recs = {x["typeprog"]: x for x in run_harness(binary, "opl", inp, timeout=2400) if "typeprog" in x}
+    known = {f["id"]: f for f in known_findings("C11")}
+    drift = 0
+    for i, p in enumerate(progs):
+        ob = recs.get(i)
+        if ob is None:
+            raise Inconclusive("program %d not replayed" % i)
+        ck.evaluations += 1
+        cid = {"program": p["prog"], "source": p["src"]}
+        if ob.get("panic"):
+            ck.violation("panic: " + ob["panic"][:200], cid)
+            continue
+        errs = ob.get("errors") or []
+        if p["prog"]["mut"] != "none":
+            ck.nontrivial.add(i)
+            if not errs:
+                ck.violation("a document with an undeclared reference (%s) is accepted" % p["prog"]["mut"], cid)
+            elif not any(e["at"].strip('"\'') == p["offending"] for e in errs):
+                ck.violation("the error for the undeclared reference does not point at the offending token '%s'" % p["offending"],
+                             dict(cid, errors=errs[:3]))
+            continue
+        if bool(errs) == p["accepted"]:
+            drift += 1      # the as-is type-rule model and the parser disagree on acceptance (not a verdict of this property)
+        if errs:
+            continue
+        ck.nontrivial.add(i)
+        schema_errs = [e for e in (ob.get("check_errors") or []) if "does not exist" in e or "not implemented" in e or "malformed" in e.lower()]
+        other = [e for e in (ob.get("check_errors") or []) if e not in schema_errs]
+        if other:
+            ck.violation("a check on conforming relationships failed: " + other[0][:200], dict(cid, errors=other[:3]))
+        if schema_errs:
+            if "C11-traverse-through-subjectset" in known and not p["runtime_ok"]:
+                ck.known("C11-traverse-through-subjectset", "an accepted document fails at check time with 'relation does not exist' (traverse over a SubjectSet<T,R> type)")
+            else:
+                ck.violation("an accepted document fails at check time with a schema error", dict(cid, errors=schema_errs[:3]))
+        elif len(ck.samples) < 3:
+            ck.sample({"program": p["prog"], "checks_run": ob.get("checks")})
+    for f in known.values():
+        if f["id"] not in ck.known_hits:
+            raise Inconclusive("known finding %s did not reproduce: remove it from known_findings.json" % f["id"])
+    ck.extra["programs"] = len(progs)
+    ck.extra["acceptance_model_drift"] = drift
+    ck.rule = ("programs over three namespaces enumerated by OplTypes.tla (type of the traversed relation, type of the group relation, which namespaces declare 'view', "
+               "five permission bodies, seven single-reference mutations); mutants must be rejected at the offending token; accepted programs are loaded into a real server, "
+               "relationships conforming to the declared types are written and every declared relation is checked on five objects for two subjects; non-trivial: mutants and accepted programs")
+    ck.assumptions = ["attribution of the recorded finding uses the spec's RuntimeOK predicate for the program"]
+    ck.finish()
